@@ -71,6 +71,9 @@ class Env:
         raise KeyError(name)
 
 
+_MISSING = object()
+
+
 class StarPack:
     """opaque *args / **kwargs of a function verified for arbitrary extra arguments"""
 
@@ -378,10 +381,52 @@ class Interp:
         return self.binop(op, old, rhs)
 
     def s_If(self, node, env):
-        if self.truth(self.eval(node.test, env), why=f"if@{node.lineno}"):
+        tv = self.eval(node.test, env)
+        if self._try_merge_if(node, tv, env):
+            return
+        if self.truth(tv, why=f"if@{node.lineno}"):
             self.exec_block(node.body, env)
         else:
             self.exec_block(node.orelse, env)
+
+    def _try_merge_if(self, node, tv, env):
+        """`if c: x = e` (no else) with a symbolic c and array/number values: no path fork, x
+        becomes ite(c, e, x).  The right-hand side is evaluated under the assumption c."""
+        if node.orelse or len(node.body) != 1:
+            return False
+        st = node.body[0]
+        if not (isinstance(st, ast.Assign) and len(st.targets) == 1):
+            return False
+        tgt = st.targets[0]
+        if isinstance(tgt, ast.Name):
+            getter = lambda: env.vars.get(tgt.id, _MISSING)
+            setter = lambda v: env.vars.__setitem__(tgt.id, v)
+        elif isinstance(tgt, ast.Subscript) and isinstance(tgt.slice, ast.Constant):
+            return False
+        else:
+            return False
+        if not isinstance(tv, T.Term) or tv.sort != T.BOOL or tv.op == "const":
+            return False
+        if isinstance(st.value, ast.Constant):
+            return False
+        old = getter()
+        if not (isinstance(old, Arr) or A.is_num(old)):
+            return False
+        c = cur()
+        mark = len(c.hyps)
+        ndec = len(c.decisions)
+        c.hyps.append(tv)
+        try:
+            new = self.eval(st.value, env)
+        finally:
+            del c.hyps[mark:]
+        if len(c.decisions) != ndec:
+            raise Unsupported("branching inside a merged conditional assignment")
+        merged = A.merge(tv, new, old)
+        if merged is None:
+            return False  # not one numeric value: fork the path instead
+        setter(merged)
+        return True
 
     def s_Assert(self, node, env):
         ok = self.eval(node.test, env)
